@@ -16,6 +16,14 @@ LATE = {
  'C11-f': 'the obligation "length untouched when a fixed-capacity backend refuses to grow" was added for this round, but the runner accepted ANY failure located in the refusing function as the expected panic and so hid it: the runner now never treats a contract assertion of the harness module as an expected failure',
  'C18-f': 'state at a library panic was not observable (Kani has no unwinding): core\'s unwrap/expect panic entry points are now replaced by observing twins that assert the HeapMem still describes the allocation it owns',
  'C03-g': 'no harness called an overridable provided method of the range iterators; the mutant adds O(1) `nth`/`nth_back` overrides that skip without destroying. Added the nth / nth_back contract (k1_handles::range_nth_h: skipped elements are destroyed, each once)',
+ 'C19-k': 'first run: UNDECIDED (the function-inventory guard saw the new helper; no harness failed): the no-alloc build computes the `Stack` capacity with a shift, wrong only for element sizes that are not a power of two, and the no-default-features copies had only 8-byte instances in the quick tier. Added one no-default-features copy per harness family, incl. stack_build_e3_9 / e24_48',
+ 'C19-l': 'MISSED when first run: whole-vector clone memcpys elements without drop glue in the no-alloc build; no clone harness of a type without drop glue was copied to the no-default-features build. Same addition (clone_nodrop_e8_na)',
+ 'C06-k': 'MISSED when first run: `insert_unchecked` lowers the length only on the type-erased branch; every lazy-clone harness used an erased source, so the known-type branch never ran user code. Added a user-implemented cloneable source with `type Type = T` (k2_insert::KnownSrc, insert/push_lazy_clone_known_e8)',
+ 'C10-k': 'first run: UNDECIDED (inventory guard): a new provided `MemResizable::shrink_to_fit(used)` that `HeapMem` overrides to skip small shrinks; the capacity contracts ran on the ghost backend only. Added k1_heap::heap_vec_capacity_h: shrink_to / shrink_to_fit / reserve / reserve_exact of a REAL heap-backed vector against the allocator protocol',
+ 'C10-l': 'MISSED when first run under C10: clone() on a backend whose fresh storage is non-empty but too small ends with len > capacity; the clone contract caught it, but served C08/C03/C05/C06 only. "len <= capacity always" is now served by a clone / insert / splice representative',
+ 'C05-l': 'MISSED when first run under C05: the replacement loop of `Splice::drop` writes once before testing the bound, which shows only for an iterator reporting length 0; the misreporting-iterator contract caught it but served C06 only. Every operation-contract harness now serves C03, C05 and C06',
+ 'C18-k': 'predicted from the agent\'s summary (before running): the new `heap_expand_exact` harness had its zero-sized instance in the thorough tier only; moved to quick',
+ 'C08-k': 'predicted from the agent\'s summary: nothing called `Clone::clone_from`. Added k1_loops::clone_from_h on real memory (type, layout, values, clone function taken over, capacity boundary)',
  'C04-j': 'MISSED when first run: a new provided `Mem::element_size()` that only `StackNMem` overrides (SIZE / N) feeds `ElementPointer::size()`; the operation contracts run on the ghost backend, which takes the default. Added k1_views::inline_views_h: views and handle reports on the REAL Stack / StackN backends instantiated with slack bytes',
  'C12-i': 'MISSED when first run: same shape as C04-j (`Mem::size_bytes()` overridden by `StackMem` to SIZE, used by `spare_bytes_mut`). Caught by the same new harness (inline_views_stack10_u32)',
  'C12-j': 'MISSED when first run: `HeapMem` overrides the provided `MemResizable::expand_exact` with an align-1 first allocation; the heap harnesses called `expand` / `resize` only. Added k1_heap::heap_expand_exact_h (allocator protocol: element layout, exact growth)',
@@ -55,12 +63,12 @@ txt = '''
 
 Fresh sub-agents were each given only the text of one property and a scratch worktree of /repo (nothing from
 /verif) and asked for two changes that break the property, still compile and pass the 44 tests, and need
-something specific to manifest. Round 1: 18 agents (one per claimed property); rounds 2 to 5: 10 + 6 + 8 + 6 agents, told only which
+something specific to manifest. Round 1: 18 agents (one per claimed property); rounds 2 to 7: 10 + 6 + 8 + 6 + 8 + 10 agents, told only which
 *functions* earlier rounds had already used (rounds 4 and 5 were asked for two cooperating sites, secondary paths - mutable / typed /
 provided-method twins - or multi-step histories). All %d changes
 were confirmed by me in the scratch worktree (`tools/seed_eval.sh`: suite green with the patch, demo fails with /
 passes without) and are kept under `/verif/seeded/<id>/` (`patch.diff`, `demo.rs`, `notes.md`, `meta.json`; ids
-`-a/-b` round 1, `-c/-d` round 2, `-e/-f` round 3, `-g/-h` round 4, `-i/-j` round 5). `seeded/harmless-1` is the opposite: a behaviour-preserving refactor that must
+`-a/-b` round 1, `-c/-d` round 2, `-e/-f` round 3, `-g/-h` round 4, `-i/-j` round 5, `-k/-l` round 6, `-m/-n` round 7). `seeded/harmless-1` is the opposite: a behaviour-preserving refactor that must
 NOT be reported.
 
 Every seeded change is reported as a VIOLATION by the **quick** check of its property. Honest accounting: %d of
